@@ -43,6 +43,14 @@ CHECKS = {
                 text="The type checker decides each point of each crate's declared feature lattice: cargo check on stable with --no-default-features --features <subset> for all 70 subsets (thorough) or empty/single/full sets (quick, 32 points). 'Features only select implementations' is discharged by reference to C03, C09 and C10, which compare every alternative implementation with one specification.",
                 note="Trusted: rustc/cargo. Known findings (listed by lattice point): groestl-aesni without std, crypto-simd with packed_simd on stable. x86-64 host target only.",
                 technique="type checking of every point of the feature lattice (cargo check), exit status per point"),
+    "C16": dict(level="other", design="3/C16",
+                text="Every monomorphic instance of workspace code reachable from the public API (4044 instances over the x86 and portable builds) is audited for unsafe memory operations: no alignment-requiring load/store intrinsic, no typed dereference / ptr::read / ptr::write through a pointer whose def chain starts at less aligned data, no pointer-to-integer conversion or address inspection, unions and transmutes of equal size without padding; the raw-pointer entry points (Groestl tf512/tf1024 x3 arms, JH f8 x5 machines) are evaluated by the pointer model on exact-size buffers where any out-of-buffer access is reported. Positive controls (fixtures/controls, short-buffer run) must fire on every run.",
+                note="Decides the property relative to the memory safety of safe Rust, core, block-buffer, generic-array and zerocopy. Alignment is decided structurally (which intrinsics / dereferences exist), not by trying addresses.",
+                technique="MIR audit of unsafe operations with def-use chains + layout facts; abstract pointer model for extents"),
+    "C18": dict(level="other", design="3/C18",
+                text="Inventory of all statics of all workspace crates with classification (immutable / lazy_static fn-pointer cell whose initialiser only performs CPU-feature detection / forbidden), references to statics from API-reachable workspace code, absence of manual Send/Sync impls, and a type-level witness crate asserting Send + Sync for 26 public state types. No shared mutable state plus &mut exclusivity decides independence from thread and instance interleavings.",
+                note="Trusted: std::sync::Once (lazy_static), std_detect's atomic cache, rustc's auto-trait and borrow checking. One-time initialisation itself is not re-verified.",
+                technique="whole-workspace static/effect inventory over compiler item tables; who-may-call rule for lazy initialisers; compile-pass auto-trait witnesses"),
 }
 
 REASONS = {}
